@@ -132,7 +132,7 @@ Definition guard_class (p : parser) (cfg : cv) : N :=
   if Nat.ltb (length (und_top false false true p cfg)) n then 3%N
   else if Nat.ltb (length (und_top true false false p cfg)) n then 1%N
   else if Nat.ltb (length (und_top false true false p cfg)) n then 2%N
-  else if Nat.eqb (length (und_top true true false p cfg)) n then 0%N else 4%N.
+  else if Nat.eqb (length (und_top true true true p cfg)) n then 0%N else 4%N.
 
 (* ---- required keys ------------------------------------------------------------------------------------ *)
 Fixpoint req_d (key : list str) (d : decl) : list (list str) :=
@@ -259,4 +259,14 @@ Definition spec_ok (p : parser) (cfg : cv) (o : obs) : bool :=
   | RejMissing k => names k m
   | RejNoSub d => existsb (fun q => match q with [K d'] => str_eqb d d' | _ => false end) m
   | RejOther => false
+  end.
+
+(* well-formed parser: the subcommand dest and the subcommand names are not also argument names of the
+   parent parser, and the dest is not a subcommand name (argparse itself refuses such declarations) *)
+Definition wf_parser (p : parser) : bool :=
+  match p_sub p with
+  | None => true
+  | Some sb =>
+      forallb (fun kd => negb (str_eqb (fst kd) (s_dest sb)) && negb (mem_str (fst kd) (map fst (s_map sb)))) (p_args p)
+      && negb (mem_str (s_dest sb) (map fst (s_map sb)))
   end.
